@@ -51,6 +51,7 @@ type Driver struct {
 
 	LastRaw *RawResponse // concrete request/response log of the last operation (for replays)
 	ks      oidc.KeySet  // library key set on the provider's /keys
+	rot     int
 }
 
 type RawResponse struct {
@@ -1038,8 +1039,30 @@ func (d *Driver) Exec(opName string, a M) M {
 				d.ucOf[n] = S(body, "user_code")
 				out["class"], out["dc"], out["uc"] = "device", n, "uc-"+n
 				out["deviceResponse"] = body
+				// the client the storage was told the device code belongs to
+				d.Store.Lock()
+				if dv, ok := d.Store.Devices[dc]; ok && dv.State != nil {
+					out["req"] = dv.State.ClientID
+				}
+				d.Store.Unlock()
 			}
 		}
+	case "RotateKey":
+		// environment: the provider's signing key is replaced (same algorithm); keepKid: the new key reuses the key id
+		d.Store.Lock()
+		old := d.Store.Signing
+		d.rot++
+		nk := *modelstore.GenKey(fmt.Sprintf("%s-rot%d", old.KID, d.rot%3), old.Alg)
+		if B(a, "keepKid") {
+			nk.KID = old.KID
+		} else {
+			nk.KID = fmt.Sprintf("%s-r%d", strings.SplitN(old.KID, "-r", 2)[0], d.rot)
+			d.Store.Retired = append(d.Store.Retired, old) // still published: tokens signed before the rotation keep verifying
+		}
+		d.Store.Signing = &nk
+		d.Store.Unlock()
+		d.ks = nil // a relying party that starts after the rotation
+		out["class"] = "ok"
 	case "Approve", "Deny", "ExpireDevice":
 		out["class"] = "noop"
 		if raw, ok := d.dcRaw[S(a, "dc")]; ok {
